@@ -5,6 +5,7 @@ import Pycoin.Proofs.KeyOrder
 import Pycoin.Proofs.Reduced
 import Pycoin.Proofs.DriverC10
 import Pycoin.Props.C11
+import Pycoin.Proofs.Base58Hash
 import Pycoin.Model.PyErr
 import Pycoin.Model.Wif
 import Pycoin.Model.KeyOps
@@ -275,16 +276,25 @@ end ctor
 section wif
 open Pycoin.Sec Pycoin.KeyCtor Pycoin.Wif Pycoin.Curve
 
-/-- the table: on every network whose Base58Check is the double-SHA-256 one, the prefix `wif_for_blob` writes is
-the prefix `ParseAPI.wif` expects, and there is one (1 byte, or 2 bytes on DCR/DCRT) -/
+/-- the table: on EVERY network (the Groestlcoin family included) the prefix `wif_for_blob` writes is the prefix
+`ParseAPI.wif` expects, and there is one (1 byte, or 2 bytes on DCR/DCRT); and the checksum hash `wif_for_blob` writes
+with is the one `parse_b58_hashed` accepts (both probed by the translator) -/
 theorem C10_wif_table :
-    ∀ net ∈ Gen.Networks.all, net.b58DoubleSha = true →
-      net.parseWif = net.outWif ∧ ∃ pfx, net.outWif = some pfx ∧ 1 ≤ pfx.length ∧ pfx.length ≤ 2 := by
+    ∀ net ∈ Gen.Networks.all,
+      net.parseWif = net.outWif ∧ net.hashWif = net.hashParse ∧
+      ∃ pfx, net.outWif = some pfx ∧ 1 ≤ pfx.length ∧ pfx.length ≤ 2 := by
+  decide +kernel
+
+/-- GRS, TGRS and GRSRT are in the table with the Groestl checksum hash (so that case of the round trip is not vacuous) -/
+theorem C10_wif_table_groestl :
+    (∃ net ∈ Gen.Networks.all, net.hashWif = .groestl ∧ net.symbol = "GRS") ∧
+    (∃ net ∈ Gen.Networks.all, net.hashWif = .groestl ∧ net.symbol = "TGRS") ∧
+    (∃ net ∈ Gen.Networks.all, net.hashWif = .groestl ∧ net.symbol = "GRSRT") := by
   decide +kernel
 
 /-- DCR and DCRT are in the table with 2-byte prefixes (so the 2-byte case of the round trip is not vacuous) -/
 theorem C10_wif_table_two_byte :
-    ∃ net ∈ Gen.Networks.all, net.b58DoubleSha = true ∧ ∃ pfx, net.outWif = some pfx ∧ pfx.length = 2 := by
+    ∃ net ∈ Gen.Networks.all, ∃ pfx, net.outWif = some pfx ∧ pfx.length = 2 := by
   decide +kernel
 
 theorem isPrefixOf_append (p d : Bytes) : p.isPrefixOf (p ++ d) = true := by
@@ -296,6 +306,7 @@ theorem isPrefixOf_append (p d : Bytes) : p.isPrefixOf (p ++ d) = true := by
 back as the same exponent, the same public pair and the flag that was written -/
 theorem wif_rt_prefix (c : CurveParams) (hn : c.n ≤ 2 ^ 256) (mul : Int → Except Curve.Err Pt)
     (net : Addr.Network) (pfx : Bytes) (hout : net.outWif = some pfx) (hparse : net.parseWif = some pfx)
+    (hhash : net.hashWif = net.hashParse)
     (d : Int) (comp : Bool) (k : Key) (hk : keyFromSecretWith c mul d comp = .ok k) (flag : Option Bool) :
     ∃ t, Key.wif net k flag = .ok (some t) ∧
       parseWifWith c mul net t = .ok (some ⟨some d, k.pub, flag.getD comp⟩) := by
@@ -313,7 +324,7 @@ theorem wif_rt_prefix (c : CurveParams) (hn : c.n ≤ 2 ^ 256) (mul : Int → Ex
     rw [fromBytes32_beBytes (by omega)]; omega
   -- the text
   let blob : Bytes := if flag.getD comp then beBytes d.toNat 32 ++ [1] else beBytes d.toNat 32
-  obtain ⟨t, ht1, ht2⟩ := Base58.C11_b58check_rt (pfx ++ blob)
+  obtain ⟨t, ht1, -, ht2⟩ := Base58.parseK_b2aK net.hashWif (pfx ++ blob)
   refine ⟨t, ?_, ?_⟩
   · unfold Key.wif
     rw [hse]
@@ -324,7 +335,7 @@ theorem wif_rt_prefix (c : CurveParams) (hn : c.n ≤ 2 ^ 256) (mul : Int → Ex
     rw [show (if flag.getD comp = true then beBytes d.toNat 32 ++ [1] else beBytes d.toNat 32) = blob from rfl, ht1]
     rfl
   · unfold parseWifWith
-    rw [Base58.C11_parse_b58_agrees, ht2, hparse]
+    rw [← hhash, ht2, hparse]
     simp only [isPrefixOf_append, if_true, List.drop_left]
     by_cases hf : flag.getD comp = true
     · have hb : blob = beBytes d.toNat 32 ++ [1] := by simp [blob, hf]
@@ -345,23 +356,24 @@ theorem wif_rt_prefix (c : CurveParams) (hn : c.n ≤ 2 ^ 256) (mul : Int → Ex
       have : flag.getD comp = false := by simpa using hf
       rw [this]
 
-/-- C10.wif_rt — on every network of the generated table (Groestl family excepted), for both compression flags,
+/-- C10.wif_rt — on EVERY network of the generated table (Groestlcoin family included: the checksum hash is the
+network's own, `C10_wif_table`; of the hash only its 32-byte length is used), for both compression flags,
 with either arithmetic configuration (`mul`): `network.parse.wif(key.wif())` is a key with the same secret exponent,
 public pair and compression flag.  `flag = none` is `key.wif()`, `some f` is `key.wif(is_compressed=f)`. -/
 theorem C10_wif_rt (c : CurveParams) (hn : c.n ≤ 2 ^ 256) (mul : Int → Except Curve.Err Pt)
-    (net : Addr.Network) (hnet : net ∈ Gen.Networks.all) (hb58 : net.b58DoubleSha = true)
+    (net : Addr.Network) (hnet : net ∈ Gen.Networks.all)
     (d : Int) (comp : Bool) (k : Key) (hk : keyFromSecretWith c mul d comp = .ok k) (flag : Option Bool) :
     ∃ t, Key.wif net k flag = .ok (some t) ∧
       parseWifWith c mul net t = .ok (some ⟨some d, k.pub, flag.getD comp⟩) := by
-  obtain ⟨heq, pfx, hout, -, -⟩ := C10_wif_table net hnet hb58
-  exact wif_rt_prefix c hn mul net pfx hout (by rw [heq, hout]) d comp k hk flag
+  obtain ⟨heq, hhash, pfx, hout, -, -⟩ := C10_wif_table net hnet
+  exact wif_rt_prefix c hn mul net pfx hout (by rw [heq, hout]) hhash d comp k hk flag
 
 /-- with the flag the key was built with, the parsed key is the key itself -/
 theorem C10_wif_rt_same (c : CurveParams) (hn : c.n ≤ 2 ^ 256) (mul : Int → Except Curve.Err Pt)
-    (net : Addr.Network) (hnet : net ∈ Gen.Networks.all) (hb58 : net.b58DoubleSha = true)
+    (net : Addr.Network) (hnet : net ∈ Gen.Networks.all)
     (d : Int) (comp : Bool) (k : Key) (hk : keyFromSecretWith c mul d comp = .ok k) :
     ∃ t, Key.wif net k none = .ok (some t) ∧ parseWifWith c mul net t = .ok (some k) := by
-  obtain ⟨t, h1, h2⟩ := C10_wif_rt c hn mul net hnet hb58 d comp k hk none
+  obtain ⟨t, h1, h2⟩ := C10_wif_rt c hn mul net hnet d comp k hk none
   obtain ⟨-, -, hse, hcomp, -, -⟩ := (C10_key_ctor_sound c mul d comp k).1 hk
   refine ⟨t, h1, ?_⟩
   rw [h2]
@@ -417,11 +429,11 @@ theorem C10_key_ctor_accepts_secp256k1 (bf d : Int) (comp : Bool) (h1 : 1 ≤ d)
 both flags, any blinding factor: the key exists, `key.wif()` is a text, and `network.parse.wif` of that text is
 the key -/
 theorem C10_wif_rt_secp256k1 (bf : Int) (net : Addr.Network) (hnet : net ∈ Gen.Networks.all)
-    (hb58 : net.b58DoubleSha = true) (d : Int) (comp : Bool) (h1 : 1 ≤ d) (h2 : d < k1.n) :
+    (d : Int) (comp : Bool) (h1 : 1 ≤ d) (h2 : d < k1.n) :
     ∃ k t, keyFromSecret k1 bf d comp = .ok k ∧ k.se = some d ∧ k.compressed = comp ∧
       Key.wif net k none = .ok (some t) ∧ parseWif k1 bf net t = .ok (some k) := by
   obtain ⟨k, hk, hse, hc, -⟩ := C10_key_ctor_accepts_secp256k1 bf d comp h1 h2
-  obtain ⟨t, ht1, ht2⟩ := C10_wif_rt_same k1 C10_field_secp256k1.2.2.1 (mulG k1 bf) net hnet hb58 d comp k hk
+  obtain ⟨t, ht1, ht2⟩ := C10_wif_rt_same k1 C10_field_secp256k1.2.2.1 (mulG k1 bf) net hnet d comp k hk
   exact ⟨k, t, hk, hse, hc, ht1, ht2⟩
 
 /-- C10.sec_rt on the shipped curve, both forms, no side condition: every reduced curve point encodes, the blob
